@@ -234,19 +234,17 @@ int main(void)
 
 			int maxst = getenv("UFTRACE_MAX_STACK") ? atoi(getenv("UFTRACE_MAX_STACK")) : 1024;
 
-			if (mtdp && !check_thread_data(mtdp) && mtdp->idx > maxst) {
-				/* the real handler would index rstack[idx - 1] beyond the array (finding F11) */
-				printf("%d flush-beyond-rstack", opno);
-			}
-			else if (mtdp && !check_thread_data(mtdp) && mtdp->idx > 0) {
+			if (mtdp && !check_thread_data(mtdp) && mtdp->idx > 0) {
 				int i;
 				int all_restored = 1;
+				/* as segv_handler(): idx clamped to the rstack array (repair of finding F11) */
+				int top = mtdp->idx > maxst ? maxst : mtdp->idx;
 
 				mcount_rstack_restore(mtdp);
 				for (i = 0; i < hdepth; i++)
 					if (hstack[i].kind == 0 && hstack[i].slot[1] != hstack[i].orig)
 						all_restored = 0;
-				record_trace_data(mtdp, &mtdp->rstack[mtdp->idx - 1], NULL);
+				record_trace_data(mtdp, &mtdp->rstack[top - 1], NULL);
 				printf("%d restored=%d", opno, all_restored);
 			}
 			else
